@@ -26,6 +26,8 @@ func main() {
 	switch os.Args[1] {
 	case "rslquery":
 		err = fam.RSLQuery(*scn, *out, *seed, *n)
+	case "writers":
+		err = fam.Writers(*scn, *out, *seed, *n)
 	case "codec":
 		switch *mode {
 		case "parse":
